@@ -9,6 +9,7 @@ import Rare.Gen.Skeleton
 import Rare.Proofs.AggLoopTrace
 import Rare.Proofs.C05Signal
 import Rare.Proofs.C05Logger
+import Rare.Proofs.C05Close
 /-!
 # C05 — race-free, atomic renders, complete final render
 
@@ -226,6 +227,58 @@ example : C05Logger.Reach C05Logger.Demo.t0 C05Logger.Demo.t7 ∧ (∀ i, (C05Lo
     C05Logger.Demo.t7.deferred = false ∧ C05Logger.Demo.t7.err = [(0, "e1")] ∧ C05Logger.Demo.t7.buf = [] ∧
     C05Logger.Demo.t4.buf = [(0, "e1")] ∧ C05Logger.Demo.t4.err = [] :=
   C05Logger.Demo.demo
+
+/-! ## Close-after-WaitGroup, and what the status line shows once the batch channel is closed
+
+`OpenFilesToChan` / `TailFilesToChan`: a reader goroutine's deferred exit block is `wg.Done()` and THEN
+`out.stopFileReading(name)`; the spawner does `wg.Wait(); out.close()`.  `Model/C05Close.lean`.
+
+Full statement one would like (known finding, it does NOT hold for the order in the source – reproduced on the real
+`OpenFilesToChan`: about 1 run in 300 shows `[5/6] … | f5` right after the batch channel was closed):
+`Reach code (init n) s → s.closed = true → active code s = 0 ∧ readCount code s = n`. -/
+
+/-- Partial: the status is complete once every reader goroutine has left its exit block (not merely once the
+    channel is closed). -/
+theorem close_status_complete_partial (n : Nat) {s : C05Close.St} (hr : C05Close.Reach C05Close.code (C05Close.init n) s)
+    (hq : ∀ p ∈ s.pcs, p = 2) : C05Close.active C05Close.code s = 0 ∧ C05Close.readCount C05Close.code s = n :=
+  C05Close.quiescent_status_complete C05Close.code (by decide) hr hq
+
+/-- Counterexample: two readers; both have called `wg.Done()`, the channel gets closed, one of them has not yet
+    reached `stopFileReading`: the status shows one active file and 1/2 read after the close. -/
+theorem close_status_lag_counterexample :
+    ∃ s : C05Close.St, C05Close.Reach C05Close.code (C05Close.init 2) s ∧ s.closed = true ∧
+      C05Close.active C05Close.code s = 1 ∧ C05Close.readCount C05Close.code s = 1 := by
+  have r1 : C05Close.Reach C05Close.code (C05Close.init 2) ⟨[1, 0], false⟩ :=
+    .step .refl (.adv (C05Close.init 2) 0 (by decide) (by decide))
+  have r2 : C05Close.Reach C05Close.code (C05Close.init 2) ⟨[1, 1], false⟩ :=
+    .step r1 (.adv ⟨[1, 0], false⟩ 1 (by decide) (by decide))
+  have r3 : C05Close.Reach C05Close.code (C05Close.init 2) ⟨[1, 1], true⟩ :=
+    .step r2 (.close ⟨[1, 1], false⟩ rfl (by decide))
+  have r4 : C05Close.Reach C05Close.code (C05Close.init 2) ⟨[2, 1], true⟩ :=
+    .step r3 (.adv ⟨[1, 1], true⟩ 0 (by decide) (by decide))
+  exact ⟨_, r4, rfl, by decide, by decide⟩
+
+/-- With the two exit actions in the other order (`stopFileReading`, then `wg.Done()`) the full statement holds:
+    a closed channel implies a complete status, for any number of readers and any interleaving. -/
+theorem close_status_complete_stop_first (n : Nat) {s : C05Close.St}
+    (hr : C05Close.Reach C05Close.stopFirst (C05Close.init n) s) (hc : s.closed = true) :
+    C05Close.active C05Close.stopFirst s = 0 ∧ C05Close.readCount C05Close.stopFirst s = n :=
+  C05Close.closed_status_complete (by decide) hr hc
+
+/-- The order the model's `code` configuration stands for is the order in the source, in both batchers; and both
+    channels (`Batcher.c`, `Extractor.readChan`) are closed right after `wg.Wait()` by the goroutine that waited –
+    the only `close` of each (no send on a closed channel: senders are counted by the WaitGroup). -/
+theorem close_after_waitgroup_skeleton :
+    ["recv:sema", "call:wg.Done", "call:out.stopFileReading"] <:+: Gen.Skeleton.openFilesToChan ∧
+    ["call:wg.Done", "call:out.stopFileReading"] <:+: Gen.Skeleton.tailFilesToChan ∧
+    ["call:wg.Wait", "call:out.close"] <:+: Gen.Skeleton.openFilesToChan ∧
+    ["call:wg.Wait", "call:out.close"] <:+: Gen.Skeleton.tailFilesToChan ∧
+    ["call:wg.Wait", "close:extractor.readChan"] <:+: Gen.Skeleton.extractorNew ∧
+    Gen.Skeleton.batcherClose = ["close:s.c"] ∧
+    (Gen.Skeleton.openFilesToChan.filter (· == "call:out.close")).length = 1 ∧
+    (Gen.Skeleton.tailFilesToChan.filter (· == "call:out.close")).length = 1 ∧
+    (Gen.Skeleton.extractorNew.filter (· == "close:extractor.readChan")).length = 1 := by
+  refine ⟨by decide, by decide, by decide, by decide, by decide, rfl, by decide, by decide, by decide⟩
 
 /-- The aggregation-loop skeleton regenerated from /repo is the one the transition system models. -/
 theorem skeleton_matches_source :
